@@ -1,9 +1,48 @@
-(* C14 - Client subscription messages mirror the requested subscription set.  Function-level theorems for every
-   world.  NOT proved: the mirror statement over all request sequences and schedules (C14_mirror: an ideal server
-   applying the sent entries in order holds exactly the requested set at every idle point) and the refresh bound;
-   both are judged on every run by check_C14 on implementation traces. *)
+(* C14 - Client subscription messages mirror the requested subscription set.
+   The mirror statement is proved over WHOLE RUNS of the stack model (Proofs/WorldMirror.v): for every scenario made of
+   subscribe / stop-subscribe / start / stop calls of the subscriber at arbitrary times (also deferred into an instant),
+   every tie order, every refresh configuration and fuel, a server that applies the Subscribe / StopSubscribe entries it
+   was sent, in the order sent (`holds`, read off the transmissions of the ghost history, which is the wire by
+   C08/C15's wire = history), holds in every idle state exactly the eventgroups requested from it while the
+   subscriber runs and none after it was stopped; in every other state the difference is exactly what the pending
+   callbacks are going to send (`futx`).  Domain as in the property: no subscribe call for ids already requested from the
+   same server (ghost event GDupSub, `clean`).  Plus function-level theorems for every world (content of the messages).
+   NOT proved: the refresh bound in time; judged on every run by check_C14 on implementation traces. *)
 From PS Require Import Lib.Base Generated.Consts Model.SdTypes Model.Config Model.Session Model.StackTypes Model.Stack
-  Proofs.StackOpsProofs Model.StackIO Spec.TraceSpec.
+  Proofs.StackOpsProofs Model.StackIO Spec.TraceSpec Proofs.MirrorLog Proofs.WorldMirror.
+
+(* every scenario of subscriber calls, every schedule: at idle the ideal server holds exactly what is requested *)
+Theorem C14_requests_mirrored_when_idle : forall sc, sub_scenario sc ->
+  let w := fst (run_scenario sc) in
+  clean (glog w) = true -> ready w = [] ->
+  forall a k, holds a k (glog w) = sub_alive w && req a k (sub_entries w).
+Proof. exact requests_mirrored_when_idle. Qed.
+(* ... and in every state, idle or not, what it holds and what is pending add up to what is requested *)
+Theorem C14_requests_mirrored_in_every_state : forall sc, sub_scenario sc ->
+  let w := fst (run_scenario sc) in
+  clean (glog w) = true -> forall a k, futx a k [] w = sub_alive w && req a k (sub_entries w).
+Proof. exact requests_mirrored_in_every_state. Qed.
+(* the invariant behind both is kept by the callback of every handle of such a run *)
+Theorem C14_mirror_kept_by_every_callback : forall h w, MIx [h] w -> MI (exec h w).
+Proof. exact MI_exec. Qed.
+
+(* non-vacuity: start, subscribe two eventgroups with one server, stop-subscribe the first, let the loop run - the run is
+   inside the domain, idle, and the server holds the second eventgroup only; after stop it holds nothing *)
+Definition c14_cfg : timings := mkTimings 0 0 0 0 0 1 0 3 3 5 (Some 2097152) 0.
+Definition c14_g1 : eventgroup := mkEg 4660 1 1 7 (mkSock false [10; 0; 0; 1] 3000) 17.
+Definition c14_g2 : eventgroup := mkEg 4660 1 1 8 (mkSock false [10; 0; 0; 1] 3000) 17.
+Definition c14_sc (stop : bool) : scenario :=
+  mkScenario c14_cfg [] []
+    ([(0, HApi ApiSubStart); (0, HApi (ApiSubscribe c14_g1 9)); (1048576, HApi (ApiSoon (ApiSubscribe c14_g2 9)));
+      (1048576, HApi (ApiStopSubscribe c14_g1 9 true))] ++ (if stop then [(4194304, HApi (ApiSubStop true))] else []))
+    6291456 false 1000.
+Example C14_mirror_example :
+  let w := fst (run_scenario (c14_sc false)) in let w' := fst (run_scenario (c14_sc true)) in
+  forallb (fun e => ext_h (snd e)) (sc_events (c14_sc true)) = true
+  /\ clean (glog w) = true /\ ready w = [] /\ sub_alive w = true
+  /\ holds 9 (key_of_eg c14_g1) (glog w) = false /\ holds 9 (key_of_eg c14_g2) (glog w) = true
+  /\ clean (glog w') = true /\ ready w' = [] /\ holds 9 (key_of_eg c14_g2) (glog w') = false.
+Proof. vm_compute. repeat split. Qed.
 
 Theorem C14_message_content : forall ttl remote gs w,
   send_subscribe ttl remote gs w = send_sd (map (fun g => create_subscribe_entry g ttl 0) gs) (Some remote) w.
@@ -13,7 +52,7 @@ Theorem C14_entry_content : forall g ttl, g_id g < 65536 -> let e := create_subs
   /\ e_opts1 e = [OIP (if sk_v6 (g_sock g) then 5 else 2) (sk_addr (g_sock g)) (g_proto g) (sk_port (g_sock g))]
   /\ e_opts2 e = [].
 Proof. exact subscribe_entry_content. Qed.
-Theorem C14_subscribe_while_alive : forall g ep w, sub_alive w = true ->
+Theorem C14_subscribe_while_alive : forall g ep w, sub_alive w = true -> requested g ep (sub_entries w) = false ->
   subscribe_eventgroup g ep w = call_soon (HSendStartSub ep [g]) (set_sub_entries (sub_entries w ++ [(g, ep)]) w).
 Proof. exact subscribe_while_alive. Qed.
 Theorem C14_stop_unknown_is_noop : forall g ep send w,
@@ -29,6 +68,10 @@ Example C14_deferred_calls_are_ordered_behind_their_instant :
   /\ exec_api (ApiSoon ApiStop) = call_soon (HApi ApiStop).
 Proof. split; reflexivity. Qed.
 
+Print Assumptions C14_requests_mirrored_when_idle.
+Print Assumptions C14_requests_mirrored_in_every_state.
+Print Assumptions C14_mirror_kept_by_every_callback.
+Print Assumptions C14_mirror_example.
 Print Assumptions C14_message_content.
 Print Assumptions C14_entry_content.
 Print Assumptions C14_subscribe_while_alive.
